@@ -113,3 +113,8 @@ package hclsyntax
 //@ ensures released: e.valuesLock.held == 0
 //@ ensures cleared: !has(e.values, ctx) && e.values == old(e.values)
 //@ ensures others: forall k *hcl.EvalContext :: k != ctx ==> has(e.values, k) == old(has(e.values, k)) && (has(e.values, k) ==> e.values[k] == old(e.values[k]))
+
+// verif:func (Keyword).TokenMatches
+//@ props C09
+//@ pure
+//@ ensures token.Type != TokenIdent ==> !ret
